@@ -24,13 +24,20 @@ Addressed(msg, ids) ==
        ELSE IF IsArr(to) THEN {to[2][i][2] : i \in {j \in DOMAIN to[2] : IsStr(to[2][j])}} \cap ids
        ELSE ids \ Services
 
+\* The step relation admits several shapes of the state after a failed action (with and without actionError, lastBindings
+\* with or without the failed attempt's own error bindings: Step and Walk build it differently).  They are one outcome for
+\* the composed model, which compares states up to those two bindings.
+CoarseBs(bs) == [k \in DOMAIN bs \ {"actionError"} |-> IF k = "lastBindings" THEN Str("<bs>") ELSE bs[k]]
+CoarseSt(st) == IF st = NONE THEN NONE ELSE St(StNode(st), CoarseBs(StBs(st)))
+CoarseOut(o) == [o EXCEPT !.to = CoarseSt(o.to)]
+
 \* one machine walks one message (the engine's loop, DESIGN.md appendix D), with a step limit
 RECURSIVE WalkFrom(_, _, _, _, _, _)
 WalkFrom(spec, st, pend, n, em, det) ==
   IF n = 0 THEN [st |-> st, emitted |-> em, det |-> det]
   ELSE LET outs == WalkStrideOutcomes(spec, st, IF pend = <<>> THEN NoMsg ELSE Head(pend), {})
            o    == CHOOSE x \in outs : TRUE
-           d2   == det /\ Cardinality(outs) = 1
+           d2   == det /\ Cardinality({CoarseOut(x) : x \in outs}) = 1
            p2   == IF o.consumed # NONE THEN Tail(pend) ELSE pend
        IN IF o.to # NONE THEN WalkFrom(spec, o.to, p2, n - 1, em \o o.emitted, d2)
           ELSE IF p2 = <<>> \/ o.consumed = NONE THEN [st |-> st, emitted |-> em \o o.emitted, det |-> d2]
